@@ -65,8 +65,13 @@ def build_roots(prog):
                     roots.append((fi, "regions"))
                 elif name in ("adjust_zeros",):
                     pass  # in-place helper on regions by contract; covered through calculate
-                elif name in ("fill_func", "fill", "reduce", "flat_regions", "_fill_one_no_coordinates", "_fill_one_by_coordinates", "calculate"):
-                    pass  # protocol methods: `regions` is owned by cube.calculate; analysed through it
+                elif name in ("fill_func", "fill", "reduce", "_fill_one_no_coordinates", "_fill_one_by_coordinates"):
+                    # protocol methods: the `regions` they are handed are owned by cube.calculate and are theirs to
+                    # write; everything else (the aggregator's own fields, the cube, the coordinates) is not
+                    if ci.name not in ("ffunc", "xfunc"):
+                        roots.append((fi, "protocol"))
+                elif name in ("flat_regions", "calculate"):
+                    pass
                 else:
                     roots.append((fi, "agg"))
     ii = prog.cls("iindexes", "iindex")
@@ -127,7 +132,14 @@ def analyse_root(prog, fi, kind, rep, stats, RA="R-C17-a", RB="R-C17-b", extra=T
                 viol[key] = (m, "a module-level object is written: results could depend on earlier calls")
                 continue
             pname, path = r[1], r[2]
+            if kind == "protocol" and pname in ("regions", "region"):
+                continue  # the result regions of this evaluation, allocated by get_initial_regions for this call
             is_self = pname == selfname
+            if m.what.startswith("overwrite_input=") and path.endswith("[]"):
+                # a subscripted operand: a boolean-mask / integer-array selection is a copy (harmless to overwrite), a slice is
+                # a view - the index kind is not tracked here
+                und[(m.ev.fi.fq, m.what, "%s%s: selection (copy) or view?" % (pname, path))] = m
+                continue
             d = diag_reason(path) or (diag_reason("." + m.ev["attr"]) if m.ev.kind in ("store_attr", "del_attr") and m.rebind and path == "" else None)
             if d is not None and (is_self or kind in ("cube",) or True):
                 stats["diagnostic"][d] = stats["diagnostic"].get(d, 0) + 1
@@ -267,7 +279,7 @@ def main(tier):
     rep.extra["documented_exceptions"] = list(stats["exceptions"])
     rep.floor("R-C17-c", 13, stats["regions"])
     rep.floor("R-C17-d", 14, stats["shortcuts"])
-    rep.floor("R-C17-a", 60, len(roots))
+    rep.floor("R-C17-a", 85, len(roots))
     return rep.finish()
 
 
